@@ -85,6 +85,9 @@ func NewEngineCorpus(id string, withRace bool, corpusLimit int) (*Engine, error)
 			nDerived = 4
 		}
 		list = append(list, derivedSpecs(s, nDerived)...)
+		if os.Getenv("VERIF_NO_MATRIX") == "" {
+			list = append(list, matrixSpecs(s, corpusLimit < 0)...)
+		}
 		cpkgs, cskipped = prepareCorpus(s, list)
 	}
 	// 2. instrument ogen's own packages
